@@ -6,17 +6,23 @@ C09 model: BGP stream framing.
   session calls `parse_frame` until it answers `None`
 * `decodeMsg`   mirrors `Message::from_octets` (src/bgp/message/mod.rs:96): `Header::parse`
   (marker, length, type) is modelled concretely, the per-type decoders
-  (`OpenMessage/UpdateMessage/NotificationMessage/KeepaliveMessage::from_octets` and the OPEN
-  accessors the FSM calls) are ONE ABSTRACT FUNCTION `body` – C01..C03 are about them
+  (`OpenMessage/UpdateMessage/NotificationMessage/KeepaliveMessage/RouteRefreshMessage::from_octets`
+  and the OPEN accessors the FSM calls) are ONE ABSTRACT FUNCTION `body` – C01..C03 are about them
 * `readMessage` mirrors the blocking reader `read_message` (src/bgp/message/mod.rs:146,
   after fix F11) with its fixed 4096-byte buffer
 * `handleMsg`   mirrors `Session::handle_msg` + the arms of `Session::handle_event` a
   wire-derived event can reach (after fixes F23, F23b), `tickMsg`/`sessionRun` the message
-  branch of `Session::tick`
+  branch of `Session::tick`.  Since the unification with C08 it is no transcription of its own:
+  it CALLS `Rc.Fsm.arm` / `Rc.Fsm.exec` (the C08 model of `handle_event`) and projects the result
+  to the three things this file looks at (state, DelayOpenTimer running, connection present) -
+  `Rc.Thm.C09.framing_step_is_fsm_step` states the agreement with `Rc.Fsm.handleInput` for every
+  configuration and every C08 session state, `framing_table_is_fsm_arm` that the table this file
+  used to spell out is the same function.
 
 Core Lean only (the driver links this file).
 -/
 import Rc.Base
+import Rc.Model.Fsm
 
 namespace Rc.Framing
 open Rc
@@ -151,9 +157,9 @@ def marker : Bytes := List.replicate 16 255
 
 /-- mirrors src/bgp/message/mod.rs:96 `Message::from_octets`:
 `Header::parse` = `Marker::check` (16 bytes, all 0xff), `parse_u16_be`, `parse_u8`,
-`seek(pos)`, `parse_octets(19)`; then dispatch on the type byte. Types 5 (ROUTE-REFRESH) and
-everything unknown are `Err(ParseError::Unsupported)`. `body` stands for the four per-type
-decoders. -/
+`seek(pos)`, `parse_octets(19)`; then dispatch on the type byte: 1..4 and, since the repair of K13
+(`fix: Message::from_octets decodes a ROUTE-REFRESH`), 5 go to their decoders, everything unknown is
+`Err(ParseError::Unsupported)`. `body` stands for the five per-type decoders. -/
 def decodeMsg (body : Bytes → Outcome WireMsg) (f : Bytes) : Outcome WireMsg :=
   if f.length < 16 then .err                       -- parse_buf(&mut [0u8; 16])? : ShortInput
   else if f.take 16 ≠ marker then .err             -- "invalid BGP marker"
@@ -161,8 +167,8 @@ def decodeMsg (body : Bytes → Outcome WireMsg) (f : Bytes) : Outcome WireMsg :
   else if f.length < 19 then .err                  -- parse_u8()?   (then seek + parse_octets(19): same bound)
   else
     let t := (f.getD 18 0).toNat
-    if t = 1 ∨ t = 2 ∨ t = 3 ∨ t = 4 then body f
-    else .err                                      -- RouteRefresh / Unimplemented(t) => Unsupported
+    if t = 1 ∨ t = 2 ∨ t = 3 ∨ t = 4 ∨ t = 5 then body f
+    else .err                                      -- Unimplemented(t) => Unsupported
 
 /-! ### read_message (blocking reader) -/
 
@@ -235,77 +241,69 @@ inductive HRes where
   | done (ok : Bool) (s : Sess) (outs : List Out)
   deriving Repr, DecidableEq
 
-/-- `self.disconnect(DisconnectReason::FsmViolation(Some(..)))`: NOTIFICATION, stop keepalive
-and hold timers, `drop_connection()` -/
-def fsmError (s : Sess) (sub : Nat) : HRes :=
-  .done true { s with st := .idle, conn := false } [.notif 5 sub]
+/-! #### the C08 model of `handle_event`, seen through `Sess`
 
-/-- the shared body of `(S::Connect | S::Active, E::BgpOpenWithDelayOpenTimerRunning)` and
-`(S::OpenSent, E::BgpOpen)`: check the peer AS, negotiate ADD-PATH, go to OpenConfirm -/
-def acceptOpen (s : Sess) (asAllowed addpathOk sendOpen : Bool) : HRes :=
-  let s := { s with delayOpen := false }           -- delay_open_timer.stop_and_reset()
-  if !asAllowed then
-    -- disconnect(FsmViolation(Some(BadPeerAs))); set_state(Idle); return Err("stop processing")
-    .done false { s with st := .idle, conn := false } [.notif 2 2]
-  else if !addpathOk then
-    -- an OPEN whose ADD-PATH capability does not parse is an OPEN message error:
-    -- disconnect(FsmViolation(Some(Unspecific))); set_state(Idle); return Err
-    .done false { s with st := .idle, conn := false } [.notif 2 0]
-  else if !s.conn then .panic                      -- `self.connection.as_ref().unwrap()`
-  else .done true { s with st := .openConfirm } (if sendOpen then [.open, .keepalive] else [.keepalive])
+`Rc.Fsm.State` has the six RFC states; `State::Unimplemented(_)` (the catch-all of `typeenum!`,
+never constructed by the session code but reachable through the `verif_set_state` hook) exists only
+here.  `Rc.Fsm.St` carries four timer flags, the connect-retry counter and the negotiated
+configuration; the arms a received message can reach read only `state`, `delay_open_timer.is_running()`
+and `connection.is_some()` of them, which is what `Sess` keeps. -/
 
-/-- mirrors `Session::handle_msg` (session.rs:470) composed with the arms of `handle_event`
-for the four events a received message can raise: BgpOpen, BgpOpenWithDelayOpenTimerRunning,
-KeepaliveMsg, UpdateMsg, NotifMsg, NotifMsgVerErr. ROUTE-REFRESH raises no event. -/
+def St.toFsm : St → Option Fsm.State
+  | .idle => some .idle | .connect => some .connect | .active => some .active
+  | .openSent => some .openSent | .openConfirm => some .openConfirm | .established => some .established
+  | .unimplemented => none
+
+def St.ofFsm : Fsm.State → St
+  | .idle => .idle | .connect => .connect | .active => .active
+  | .openSent => .openSent | .openConfirm => .openConfirm | .established => .established
+
+/-- the PDU a C08 output is (what goes to the application channel is not a PDU) -/
+def Out.ofFsm : Fsm.Out → Option Out
+  | .pduOpen _ => some .open
+  | .pduKeepalive => some .keepalive
+  | .pduNotification c s => some (.notif c s)
+  | _ => none
+
+/-- what this file sees of a C08 session state -/
+def Sess.ofFsm (s : Fsm.St) : Sess := ⟨St.ofFsm s.state, s.dop, s.conn⟩
+
+/-- a C08 session state with the given view (the fields `Sess` does not keep are those of a fresh
+session; `Rc.Thm.C09.exec_view` shows that they do not influence the view of the result) -/
+def Sess.lift (s : Sess) (st : Fsm.State) : Fsm.St := ⟨st, false, false, false, s.delayOpen, 0, s.conn, none⟩
+
+/-- a configuration to run `Rc.Fsm.arm` / `Rc.Fsm.exec` with: the arms of the six message events read
+none of its fields (`Rc.Thm.C09.arm_msg_ctx`), and none of them reaches the view of the result -/
+def wireCfg : Fsm.Cfg := ⟨false, false, false, false, [], 0, []⟩
+
+/-- the event kind `Session::handle_msg` (session.rs:485) raises for a decoded message:
+OPEN: BgpOpenWithDelayOpenTimerRunning if `self.delay_open_timer.is_running()` else BgpOpen;
+KEEPALIVE: KeepaliveMsg; UPDATE: UpdateMsg; NOTIFICATION: NotifMsgVerErr for OPEN Message Error /
+Unsupported Version Number, else NotifMsg; ROUTE-REFRESH raises no event ("not doing anything") -/
+def kindOfWire (dop : Bool) : WireMsg → Option Fsm.Kind
+  | .open a b => some (if dop then .bgpOpenDelay a b else .bgpOpen a b)
+  | .update => some .updateMsg
+  | .notification v => some (if v then .notifMsgVerErr else .notifMsg)
+  | .keepalive => some .keepaliveMsg
+  | .routeRefresh => none
+
+/-- mirrors `Session::handle_msg` (session.rs:485) composed with `Session::handle_event` for the
+six events a received message can raise: the event kind is `kindOfWire`, the arm is C08's
+`Rc.Fsm.arm`, its statements are interpreted by C08's `Rc.Fsm.exec`.
+`(S::Unimplemented(_), _) => set_state(Idle)` is the first arm of `handle_event`. -/
 def handleMsg (s : Sess) (m : WireMsg) : HRes :=
-  match m with
-  | .notification verErr =>                         -- NotifMsgVerErr / NotifMsg
-    match s.st with
-    | .unimplemented => .done true { s with st := .idle } []
-    | .idle => .done true s []
-    | .connect => .done true { s with st := .idle, delayOpen := false } []
-    | .active =>
-      if verErr then .done true { s with st := .idle, delayOpen := false } []
-      else .done true { s with st := .idle } []
-    | .openSent =>
-      if verErr then .done true { s with st := .idle, conn := false } []
-      else fsmError s 1
-    | .openConfirm => .done true { s with st := .idle, conn := false } []
-    | .established => .done true { s with st := .idle, conn := false } []
-  | .routeRefresh => .done true s []               -- "not doing anything"
-  | .open asOk apOk =>
-    match s.st with
-    | .unimplemented => .done true { s with st := .idle } []
-    | .idle => .done true s []                     -- "(unexpected) non-event"
-    | .connect =>
-      if s.delayOpen then acceptOpen s asOk apOk true          -- fix F23b (was todo!())
-      else .done true { s with st := .idle, delayOpen := false } []
-    | .active =>
-      if s.delayOpen then acceptOpen s asOk apOk true
-      else .done true { s with st := .idle } []
-    | .openSent =>
-      if s.delayOpen then fsmError s 1
-      else acceptOpen s asOk apOk false
-    | .openConfirm => fsmError s 2                 -- fix F23 (was todo!())
-    | .established => fsmError s 3                 -- fix F23 (was todo!())
-  | .keepalive =>
-    match s.st with
-    | .unimplemented => .done true { s with st := .idle } []
-    | .idle => .done true s []
-    | .connect => .done true { s with st := .idle, delayOpen := false } []
-    | .active => .done true { s with st := .idle } []
-    | .openSent => fsmError s 1
-    | .openConfirm => .done true { s with st := .established } []
-    | .established => .done true s []
-  | .update =>
-    match s.st with
-    | .unimplemented => .done true { s with st := .idle } []
-    | .idle => .done true s []
-    | .connect => .done true { s with st := .idle, delayOpen := false } []
-    | .active => .done true { s with st := .idle } []
-    | .openSent => fsmError s 1
-    | .openConfirm => fsmError s 2
-    | .established => .done true s []
+  match kindOfWire s.delayOpen m with
+  | none => .done true s []                         -- ROUTE-REFRESH: `handle_event` is not called
+  | some k =>
+    match s.st.toFsm with
+    | none => .done true { s with st := .idle } []  -- "Unimplemented state, resetting to Idle"
+    | some st =>
+      match Fsm.arm (Fsm.ctxOf wireCfg (s.lift st)) st k with
+      | .todo => .todo
+      | .panic => .panic
+      | .run acts ok =>
+        let r := Fsm.exec wireCfg Fsm.defaultOpen (s.lift st) acts
+        .done ok (Sess.ofFsm r.1) (r.2.filterMap Out.ofFsm)
 
 /-- outcome of one turn of the message branch of `Session::tick` -/
 inductive Tick where
@@ -315,6 +313,16 @@ inductive Tick where
   | handled (ok : Bool) (s : Sess) (outs : List Out) (rest : Bytes)
   deriving Repr, DecidableEq
 
+/-- the `Ok(Some(m))` arm of the frame branch of `Session::tick` (session.rs:289): `handle_msg`, and
+`set_state(State::Connect); return Err` when it failed (= the `.frame` case of `Rc.Fsm.tickStep`,
+`Rc.Thm.C09.framing_tick_is_fsm_tick`) -/
+def tickHandle (s : Sess) (m : WireMsg) (rest : Bytes) : Tick :=
+  match handleMsg s m with
+  | .todo => .panic
+  | .panic => .panic
+  | .done true s' outs => .handled true s' outs rest
+  | .done false s' outs => .handled false { s' with st := .connect } outs rest
+
 /-- mirrors the `maybe_read_frame` branch of `Session::tick` (session.rs:334) when every byte
 the peer will ever send is in `buf` and the peer then closes: `read_frame` = `parse_frame`,
 else EOF (`Ok(None)` on an empty buffer, "connection reset by peer" otherwise). -/
@@ -323,12 +331,7 @@ def tickMsg (body : Bytes → Outcome WireMsg) (s : Sess) (buf : Bytes) : Tick :
   | .panic => .panic
   | .err => .readErr
   | .ok none => if buf.isEmpty then .eof else .readErr
-  | .ok (some ((m, _), rest)) =>
-    match handleMsg s m with
-    | .todo => .panic
-    | .panic => .panic
-    | .done true s' outs => .handled true s' outs rest
-    | .done false s' outs => .handled false { s' with st := .connect } outs rest   -- `set_state(State::Connect); return Err`
+  | .ok (some ((m, _), rest)) => tickHandle s m rest
 
 /-- `Session::process` on the message branch: tick until an error, EOF or a dropped
 connection. Result: the ticks, final session. -/
